@@ -4,7 +4,7 @@ CFG = dict(
     level="proof",
     lean_modules=["ElysModel.Props.C20"],
     props_files=["ElysModel/Props/C20.lean"],
-    runs=[scn_run("c20"), hist_run(focus="ts.")],
+    runs=[scn_run("c20"), hist_run(focus="ts."), dict(hist_run(nq=200, sq=4, st=8, focus="ts."), env_quick={"VERIF_HISTS": "1", "VERIF_FOCUS": "ts.", "VERIF_GENTRIP": "1"}, env_thorough={"VERIF_HISTS": "3", "VERIF_FOCUS": "ts.", "VERIF_GENTRIP": "1"})],
     rule=HIST_RULE + "; plus directed scenarios (mode scn, prefix c20)",
     trusted_base=COMMON_TB + ["what happened to each pending order in a block (cancelled / executed / untouched) is inferred from the order sets before and after and the "
                               "block's successful cancel/update messages; the market price is the post-block oracle price (price feeds are first in a block)"],
